@@ -6,6 +6,8 @@ type `Rat` and are proved equal to the model's closed forms on ALL inputs).
 -/
 import ShapeVerif.Props.C13
 import ShapeVerif.Gen.Arith
+import ShapeVerif.Props.C14b
+import ShapeVerif.Props.C12
 
 namespace ShapeVerif.C13
 open ShapeVerif
@@ -42,6 +44,20 @@ theorem source_inner_self_nonneg (p : Pt) : 0 ≤ Gen.inner p p := by
 theorem source_lagrange_identity (p q : Pt) :
     Gen.inner p p * Gen.inner q q = Gen.inner p q ^ 2 + Gen.cross p q ^ 2 := by
   simp only [source_inner_formula, source_cross_formula]; ring
+
+/-- the crossing parameters of two straight edges AS COMPUTED BY THE SOURCE are the exact rational solution, decided by exact comparisons
+(`denom ≠ 0`, `0 ≤ u ≤ 1`) — no tolerance, no rounding: whenever the source reports `(u, v)` the point `A(u) = B(v)` holds exactly, and every
+exact transversal crossing is reported (restated from C14b so that a tolerance creeping into `Intersection.lines` also breaks C13) -/
+theorem source_crossing_parameters_exact (a0 a1 b0 b1 : Pt) (u v : Rat) :
+    Gen.linesInter a0 a1 b0 b1 = some (u, v) ↔
+      Pt.cross (a1 - a0) (b1 - b0) ≠ 0 ∧ lerp a0 a1 u = lerp b0 b1 v ∧ 0 ≤ u ∧ u ≤ 1 ∧ 0 ≤ v ∧ v ≤ 1 :=
+  C14.source_lines_iff a0 a1 b0 b1 u v
+
+/-- … and they do not depend on the unit of length -/
+theorem source_crossing_parameters_scale_free (a0 a1 b0 b1 : Pt) (k : Rat) (hk : k ≠ 0) :
+    Gen.linesInter (a0.scale k k) (a1.scale k k) (b0.scale k k) (b1.scale k k) = Gen.linesInter a0 a1 b0 b1 := by
+  rw [C14.source_lines_is_model]
+  exact C12.linesInter_scale a0 a1 b0 b1 k k hk hk
 
 example : Gen.cross ⟨1/3, 2⟩ ⟨5, -7/2⟩ = -67/6 := by decide +kernel
 example : Gen.inner ⟨1/3, 2⟩ ⟨5, -7/2⟩ = -16/3 := by decide +kernel
